@@ -224,6 +224,7 @@ fn one_case<S: Smp, const N: usize, W: WindowFn<f64, Output = f64>>(st: &mut Str
     let frames: Vec<[S; N]> = (0..l).map(|_| { let mut f = [S::EQUILIBRIUM; N]; for c in 0..N { f[c] = S::random(rng); } f }).collect();
     let mut op = format!("wdr {} {} {} {} {} {} {}", S::NAME, kind, N, bin, hop, cap, l);
     for f in &frames { for c in 0..N { op.push(' '); op.push_str(&f[c].show()); } }
+    mark(0, &op);
     let Some((run, left)) = guarded(|| real_run::<S, N, W>(&frames, bin, hop, cap)) else {
         if in_domain { st.oracle_fail("windower panicked", &op, "", "panic"); }
         st.case(&op, "panic", true, 1); return;
